@@ -32,6 +32,7 @@ class SeqSpec:
     listdir_order = 'native'      # 'native' | 'sorted' | 'reversed'
     universe = None
     with_sources = True
+    thresholds = None             # (_IN_SQL_MAX_LENGTH, _MAX_CHUNK_ITERATE_LENGTH) or None for the defaults
 
     def roots(self):
         """List of (name, config, prefix_history)."""
@@ -87,6 +88,10 @@ def _install_listdir(order: str):
 
 def _make_world(spec: SeqSpec, root):
     name, config, prefix = root
+    # internal batch-size thresholds (class attributes read through self): lowered so that the small states of the
+    # search exercise the multi-chunk IN queries and the sorted full-scan strategy as well
+    from disk_objectstore import Container
+    Container._IN_SQL_MAX_LENGTH, Container._MAX_CHUNK_ITERATE_LENGTH = spec.thresholds or (950, 9500)
     w = World(config=config, nhandles=spec.nhandles, universe=spec.universe, with_sources=spec.with_sources)
     spec.prepare(w)
     for op in prefix:
@@ -98,8 +103,9 @@ def _make_world(spec: SeqSpec, root):
 
 
 def _canon(w: World, raw: RawState):
+    from disk_objectstore import Container
     return (tuple(sorted(w.config.items())), raw.canon(), tuple(handle_state(h) for h in w.handles), w.cur,
-            tuple(sorted(w.damaged)))
+            tuple(sorted(w.damaged)), (Container._IN_SQL_MAX_LENGTH, Container._MAX_CHUNK_ITERATE_LENGTH))
 
 
 def _replay(spec: SeqSpec, root, hist):
